@@ -17,8 +17,8 @@ type (
 	Zipf     = mr.Zipf
 )
 
-func New(src Source) *Rand           { return mr.New(src) }
-func NewSource(seed int64) Source    { return mr.NewSource(seed) }
+func New(src Source) *Rand                             { return mr.New(src) }
+func NewSource(seed int64) Source                      { return mr.NewSource(seed) }
 func NewZipf(r *Rand, s, v float64, imax uint64) *Zipf { return mr.NewZipf(r, s, v, imax) }
 
 func Seed(seed int64) { sim.RandSeed(uint64(seed)) }
